@@ -652,6 +652,9 @@ class Variant(productmd.composeinfo.VariantBase):
         self.uid = uid
         if addon:
             self.type = "addon"
+            if self._metadata.header.version_tuple > (0, 3) and not parser.has_section(self._section):
+                # child variants that are not addons are written to variant-* sections
+                self.type = "variant"
 
         # variant details
         if self._metadata.header.version_tuple == (0, 0):
